@@ -427,13 +427,18 @@ func c12Run(c c12Case, o *hx.Obs) {
 	if c.FaultAt > 0 {
 		from, to = c.FaultAt, c.FaultAt
 	}
+	failed := 0
 	for k := from; k <= to; k++ {
 		lg, e, p := c12Exec(c, mm, k)
 		if k <= len(lg.events) {
 			o.Class("fault=%s/%s", lg.events[k-1].Kind, lg.events[k-1].Side)
 		}
 		if !c12Check(o, c, lg, e, p, k, true) {
-			return
+			// the fault positions after this one are still looked at: a recorded finding at an early position must not
+			// hide what later ones show
+			if failed++; failed >= 3 {
+				return
+			}
 		}
 	}
 }
@@ -450,6 +455,11 @@ func c12Gen(t *rapid.T) c12Case {
 	u := dm.GenTree(t, root, to)
 	target := dm.Subsample(t, root, u, 75, 0, to)
 	source := dm.Subsample(t, root, u, 60, 50, to)
+	if rapid.IntRange(0, 2).Draw(t, "other-cases") == 0 {
+		// content drawn afresh: where the schema has choices the source may hold another case than the target does, and
+		// the edit clears the case that goes
+		source = dm.Subsample(t, root, dm.GenTree(t, root, to), 60, 50, to)
+	}
 	c := c12Case{Module: m, Target: target, Op: rapid.SampledFrom([]string{"upsert", "upsert", "insert", "update", "delete", "replace"}).Draw(t, "op")}
 	paths := dm.AllPaths(root, target, nil)
 	if len(paths) > 0 && (c.Op == "delete" || c.Op == "replace" || rapid.Bool().Draw(t, "nonroot")) {
